@@ -913,7 +913,43 @@ def ambiguous_call(rng):
 BASE_PAIRS = [pair_implicit_reduce, pair_implicit_same, pair_implicit_superset, pair_implicit_argfind, pair_auto_brackets, pair_nested_arrow,
               pair_adjacent_brackets, pair_unit_coordinate, pair_anonymous]
 
+# 18. directed pairs: numbers and keepdims brackets at different ellipsis depths (each repetition of an ellipsis has its own
+#     unnamed axes; every bracket gets its own kept unit axis wherever it stands)
+_DIRECTED_STATE = {"i": 0}
+
+
+def directed_pairs():
+    x23 = np.arange(6, dtype=np.int64).reshape(2, 3) + 1
+    x234 = np.arange(24, dtype=np.int64).reshape(2, 3, 4) + 1
+    x2443 = np.arange(96, dtype=np.int64).reshape(2, 4, 4, 3) + 1
+    big = np.arange(24, dtype=np.int64).reshape(4, 6) + 1
+    P = [
+        mk("number_in_ellipsis", "id", "s... -> (s 2)...", "s1 s2 -> (s1 2) (s2 2)", [x23]),
+        mk("number_in_ellipsis", "id", "s... c -> (s 2)... c", "s1 s2 c -> (s1 2) (s2 2) c", [x234]),
+        mk("number_in_ellipsis", "add", "(s 2)..., s...", "(s1 2) (s2 2), s1 s2", [big, x23]),
+        mk("number_in_ellipsis", "id", "(s 2)... -> s... 2 2", "(s1 2) (s2 2) -> s1 s2 2 2", [big], {}, {}),
+        mk("number_in_ellipsis", "sum", "(s [2])...", "(s1 [2]) (s2 [2])", [big]),
+        mk("number_in_ellipsis", "id", "s... -> (s 1)... 3", "s1 s2 -> (s1 1) (s2 1) 3", [x23]),
+        mk("keepdims_depths", "mean", "b [s]... [c]", "b ([s])... ([c])", [x2443], {"keepdims": True}, {}),
+        mk("keepdims_depths", "sum", "[b] [s]... c", "([b]) ([s])... c", [x2443], {"keepdims": True}, {}),
+        mk("keepdims_depths", "max", "b (s [ds])... [c]", "b (s ([ds]))... ([c])", [x2443], {"keepdims": True, "ds": 2}, {"ds": 2}),
+        mk("keepdims_depths", "sum", "[a] b [c]", "([a]) b ([c])", [x234], {"keepdims": True}, {}),
+        mk("keepdims_depths", "min", "[s]... [c]", "([s])... ([c])", [x234], {"keepdims": True}, {}),
+    ]
+    return P
+
+
+def pair_directed(rng):
+    P = directed_pairs()
+    i = _DIRECTED_STATE["i"]
+    _DIRECTED_STATE["i"] = i + 1
+    if i >= len(P):
+        raise IndexError("directed pairs exhausted")
+    return P[i]
+
+
 SHORTHANDS = [
+    ("directed_depths", pair_directed),
     ("implicit_output_reduce", pair_implicit_reduce),
     ("implicit_output_same", pair_implicit_same),
     ("implicit_output_superset", pair_implicit_superset),
@@ -1061,6 +1097,7 @@ def run(ctx):
         per = max(per, 200)
     failures = {}
     amb_reported = 0
+    _DIRECTED_STATE["i"] = 0
     with Recorder() as rec:
         for name, fn in SHORTHANDS:
             done = 0
